@@ -409,6 +409,8 @@ def judge_c03_group(cases, lab):
                 fp = ob.get("fingerprint")
                 if fp["ok"]:
                     fps.append((case, ob.o, K, fp["v"], res))
+                    if len(K) >= 2 and len(_C03_PENDING) < 40:
+                        _C03_PENDING.append((case, fp["v"].hex(), res))
                 else:
                     res.bad("fingerprint-fails", "keys() succeeds but fingerprint() fails: %s" % observe.describe(fp))
         out.append((case, res))
@@ -1091,9 +1093,51 @@ def c20_fixed_probes(prop, tier, sc, rep):
     return 0, 0, n, 2
 
 
+_C03_PENDING = []
+
+
+def _finish_c03():
+    """Fingerprint bytes must not depend on the process: recompute a sample under other hash seeds."""
+    global _C03_PENDING
+    import json
+    import os
+    import shutil
+    import subprocess
+    import sys
+    import tempfile
+
+    from .common import VERIF
+
+    pending, _C03_PENDING = _C03_PENDING, []
+    if not pending:
+        return
+    d = tempfile.mkdtemp(prefix="labrea-verif-c03-")
+    try:
+        inp = os.path.join(d, "in.json")
+        json.dump([{"nodes": c["nodes"], "tabs": c["tabs"], "o": c["a"]["o"]} for c, fp, res in pending], open(inp, "w"))
+        for seed in ("1", "4242", "random"):
+            outp = os.path.join(d, "out-%s.json" % seed)
+            env = dict(os.environ, PYTHONHASHSEED=seed)
+            r = subprocess.run([sys.executable, "-m", "harness.fp_child", inp, outp], cwd=VERIF, env=env,
+                               capture_output=True, text=True, timeout=300)
+            if r.returncode != 0:
+                pending[0][2].bad("fp-child", "fingerprint child failed: %s" % r.stderr[-300:])
+                return
+            for (c, fp, res), got in zip(pending, json.load(open(outp))):
+                if got != fp:
+                    res.bad("fp-hash-seed", "fingerprint %s in this process (PYTHONHASHSEED=0) but %s in a process started with PYTHONHASHSEED=%s" % (
+                        bytes.fromhex(fp), bytes.fromhex(got) if not got.startswith("ERR") else got, seed))
+    finally:
+        shutil.rmtree(d, ignore_errors=True)
+
+
 def finish_chunk(prop, lab):
-    """C20: one freshly started interpreter unpickles and evaluates the graphs of this chunk."""
+    """C20: one freshly started interpreter unpickles and evaluates the graphs of this chunk.
+    C03: fingerprints of a sample recomputed under other hash seeds."""
     global _C20_PENDING
+    if prop == "C03":
+        _finish_c03()
+        return
     if prop != "C20" or not _C20_PENDING:
         return
     import json
